@@ -103,18 +103,34 @@ _SIBLING_FLUSHES = {
         {"op": "return", "e": {"var": "x1"}}]],
     "params": {"kinds": {}},
 }
+# tasks that return a future they never yielded (`return other.asynq(...)`, `return item`): the future object is the task's
+# value - it is neither started nor computed on the task's behalf (model-blind class: monitors only)
+_RETURNS_FUTURE = {
+    "roots": [[
+        {"op": "yield", "x": "x1", "s": {"tuple": [
+            {"new": {"task": [{"op": "yield", "x": "a1", "s": {"new": {"item": [0, 1, {"set": 1}]}}},
+                              {"op": "let", "h": "h1", "f": {"item": [0, 2, {"set": 2}]}}, {"op": "return", "e": {"handle": "h1"}}]}},
+            {"new": {"task": [{"op": "yield", "x": "b1", "s": {"new": {"item": [0, 3, {"set": 3}]}}},
+                              {"op": "let", "h": "h2", "f": {"task": [{"op": "yield", "x": "c1", "s": {"new": {"item": [0, 4, {"set": 4}]}}}, {"op": "return", "e": {"var": "c1"}}]}},
+                              {"op": "return", "e": {"handle": "h2"}}]}},
+            {"new": {"task": [{"op": "yield", "x": "d1", "s": {"new": {"item": [0, 5, {"set": 5}]}}}, {"op": "yield", "x": "d2", "s": {"new": {"item": [0, 6, {"set": 6}]}}},
+                              {"op": "return", "e": {"var": "d2"}}]}}]}},
+        {"op": "return", "e": 0}]],
+    "params": {"kinds": {}, "model_blind": True},
+}
 _EXTRA = [
     (1, dict(name="shared-lazy", p_ctx_fault=0, p_nonasync=0, budget=16, max_depth=4, p_lazy=0.5, p_let=0.4, p_old=0.6, p_item=0.2)),
     (2, dict(name="nested-dict", p_ctx_fault=0, p_nonasync=0, budget=18, max_depth=4, p_dict=0.5, p_errfut=0.1, p_try=0.2)),
     (1, dict(name="reuse", p_ctx_fault=0, p_nonasync=0, budget=16, max_depth=4, p_again=0.6, p_let=0.35, p_old=0.5)),
     (2, dict(name="twokinds", p_ctx_fault=0, p_nonasync=0, budget=20, max_depth=5, nkinds=3, p_item=0.6, p_prio=0.6, p_old=0.3, p_let=0.2)),
     (1, dict(name="sync-items", p_ctx_fault=0, p_nonasync=0, budget=16, max_depth=4, p_sync=0.35, p_item=0.7, p_let=0.2, nkinds=1)),
+    (1, dict(name="returns-future", p_ctx_fault=0, p_nonasync=0, budget=16, max_depth=4, p_ret_fut=0.4, p_let=0.25, p_item=0.55)),
     (1, dict(name="dup", p_ctx_fault=0, p_nonasync=0, budget=18, max_depth=4, p_dup=0.6, p_item=0.25, p_const=0.1)),
 ]
 
 mach.install(globals(), "C03", ("EvStep", "EvDone"), ("C03:", "C10:compute-once"), PROFILES, n_quick=300, n_thorough=25000,
              nontrivial=_nontrivial, hang_clause="C03:termination", level="proof", extra_monitors=_extra,
-             corpus=[_NESTED_DICT, _DOUBLE_LAZY, _DUP_TASK, _TWO_BATCH_SIBLINGS, _SIBLING_FLUSHES], extra_gen=mach.extra_profiles(_EXTRA, 120, 8000))
+             corpus=[_NESTED_DICT, _DOUBLE_LAZY, _DUP_TASK, _TWO_BATCH_SIBLINGS, _SIBLING_FLUSHES, _RETURNS_FUTURE], extra_gen=mach.extra_profiles(_EXTRA, 120, 8000))
 
 _gen0 = gen_cases
 _cmp0 = compare
